@@ -3,6 +3,7 @@
 -/
 import HLV.Logic.Deadlock
 import HLV.Logic.Order
+import HLV.Logic.OrderOwned
 import HLV.Logic.ParSound
 import HLV.Props.HoldFamily
 namespace HLV
@@ -42,6 +43,14 @@ theorem C01_rank_discipline_holds_for_valid_flat_collections (C : Ctx) (ses : Se
     (hb : ∀ b ∈ ses.body, stepOK (C.shape ses.coll) ses.mode b) :
     SesOK (some C.W.addr) C ses :=
   ⟨hl, shapeOK_addr C.W _ hno hv, hf, hb⟩
+
+-- @theorem C01_rank_discipline_holds_with_owned_groups : the hypothesis of C01_deadlock_free is also met by collections that contain OWNED groups (an OwnedLockCollection as a member of sorting / retrying collections, nested in any way): for every rank of the form "address of the unit, then position inside the unit" (FitOut), every collection accepted by its checked constructor obeys the rank discipline — an owned group is one indivisible unit sorted by the address of the collection object and taken in its own listing order
+theorem C01_rank_discipline_holds_with_owned_groups (C : Ctx) (M : Nat) (rank : LockId → Nat) (hM : 0 < M)
+    (ses : Session) (hl : lockable (C.shape ses.coll) = true)
+    (hfit : FitOut C.W M rank (C.shape ses.coll)) (hv : Valid C.W (C.shape ses.coll))
+    (hf : ses.exit ≠ .forget) (hb : ∀ b ∈ ses.body, stepOK (C.shape ses.coll) ses.mode b) :
+    SesOK (some rank) C ses :=
+  ⟨hl, shapeOK_rank hM _ hfit hv, hf, hb⟩
 
 -- @theorem C01_no_thread_waits_for_itself : one thread alone (N = 1) never waits: whatever sequence of acquire and release calls it makes, its next operation is never a blocking acquisition the table refuses
 theorem C01_no_thread_waits_for_itself (pol : Policy) (rank : LockId → Nat) (C : Ctx)
@@ -118,5 +127,14 @@ example : ∀ c : Nat, c < 3 → Valid exC01.W (exC01.shape c) ∧ noOwned (exC0
   | 0, _ => exact ⟨by simp [exC01, Ctx.shape, Valid, ValidL, getPtrs, getPtrsL], rfl⟩
   | 1, _ => exact ⟨by simp [exC01, Ctx.shape, Valid, ValidL, getPtrs, getPtrsL], rfl⟩
   | 2, _ => exact ⟨by simp [exC01, Ctx.shape, Valid, ValidL, getPtrs, getPtrsL], rfl⟩
+
+/-! non-vacuity for owned groups: a boxed collection over an owned group (at address 7, listing
+`[m2, m1]`) and a plain lock `m0`; rank = 4 · unit address + position -/
+def exOwned : Shape := .boxed (.seq [.owned 7 (.seq [.mutex 2, .mutex 1]), .mutex 0])
+def exRank : LockId → Nat := fun x => if x = 0 then 0 else if x = 2 then 28 else 29
+example : FitOut { addr := fun x => x } 4 exRank exOwned ∧ Valid { addr := fun x => x } exOwned := by
+  refine ⟨?_, ?_⟩
+  · simp [exOwned, FitOut, FitOutL, FitInside, FitInsideL, getPtrs, getPtrsL, exRank]
+  · simp [exOwned, Valid, ValidL, getPtrs, getPtrsL]
 
 end HLV
